@@ -181,6 +181,7 @@ type Options struct {
 	Plans              map[string]models.UserPlan
 	RpcTimeout         int
 	ShardTimeout       int
+	MaxCacheSize       int64 // 0 means unlimited here (-1 for the manager)
 	MaxSearchLimit     int
 }
 
@@ -215,6 +216,9 @@ func StartCluster(dir string, n int, o Options) ([]*Node, error) {
 	}
 	if o.ShardTimeout == 0 {
 		o.ShardTimeout = 300
+	}
+	if o.MaxCacheSize == 0 {
+		o.MaxCacheSize = -1
 	}
 	if o.MaxSearchLimit == 0 {
 		o.MaxSearchLimit = 75
@@ -256,7 +260,7 @@ func StartNode(dir string, rpcPort, httpPort int, servers []string, o Options) (
 	cfg := cluster.ClusterNodeConfig{
 		RootDir: dir, RpcHost: "localhost", RpcPort: rpcPort, RpcTimeout: o.RpcTimeout, RpcRetries: 1,
 		Servers:            servers,
-		ShardManager:       cluster.ShardManagerConfig{RootDir: dir, ShardTimeout: o.ShardTimeout, MaxCacheSize: -1},
+		ShardManager:       cluster.ShardManagerConfig{RootDir: dir, ShardTimeout: o.ShardTimeout, MaxCacheSize: o.MaxCacheSize},
 		MaxShardSize:       o.MaxShardSize,
 		MaxShardPointCount: o.MaxShardPointCount,
 		MaxSearchLimit:     o.MaxSearchLimit,
